@@ -456,6 +456,42 @@ def special_models():
     gb.node.append(helper.make_node("If", ["c"], ["r"], name="if_keep", then_branch=tb, else_branch=eb))
     gb.output.append(helper.make_tensor_value_info("r", TP.FLOAT, ["R"]))
     out.append(("kept_identity_in_branch_over_captured_value", helper.make_model(gb, opset_imports=[helper.make_opsetid("", OPSET)], ir_version=10)))
+    # only a branch body is out of order (the main graph is sorted)
+    gu = onnx.GraphProto(name="main")
+    gu.input.extend([_vi("x"), _vi("c", TP.BOOL, ())])
+    tbu = onnx.GraphProto(name="then_unsorted")
+    tbu.node.append(helper.make_node("Neg", ["tu1"], ["tu2"], name="tu_neg"))
+    tbu.node.append(helper.make_node("Relu", ["x"], ["tu1"], name="tu_relu"))
+    tbu.output.append(_vi("tu2", TP.FLOAT, None))
+    ebu = onnx.GraphProto(name="else_sorted")
+    ebu.node.append(helper.make_node("Identity", ["x"], ["eu1"], name="eu_id"))
+    ebu.output.append(_vi("eu1", TP.FLOAT, None))
+    gu.node.append(helper.make_node("If", ["c"], ["yu"], name="if_unsorted_branch", then_branch=tbu, else_branch=ebu))
+    gu.output.append(_vi("yu", TP.FLOAT, (2,)))
+    out.append(("only_a_branch_body_is_unsorted", helper.make_model(gu, opset_imports=[helper.make_opsetid("", OPSET)], ir_version=10)))
+    # two identical nodes with optional outputs, each consumer set using a different subset of them (every pattern
+    # of which of Mean / InvStdDev the first and the second node's consumers use)
+    for use_a in (("y",), ("inv",), ("mean",), ("mean", "inv")):
+        for use_b in (("mean",), ("inv",), ("mean", "inv"), ("y", "mean")):
+            gl2 = onnx.GraphProto(name="main")
+            gl2.input.extend([helper.make_tensor_value_info("x", TP.FLOAT, [1, 2]), _vi("c", TP.BOOL, ())])
+            gl2.initializer.append(_const_tensor("ln_scale", [1.0, 2.0]))
+            gl2.node.append(helper.make_node("LayerNormalization", ["x", "ln_scale"], ["a_y", "a_mean", "a_inv"], name="ln_a"))
+            gl2.node.append(helper.make_node("LayerNormalization", ["x", "ln_scale"], ["b_y", "b_mean", "b_inv"], name="ln_b"))
+            terms = [f"a_{u}" for u in use_a] + [f"b_{u}" for u in use_b]
+            acc = None
+            for k, tname in enumerate(terms):
+                r1 = f"r_{k}"
+                gl2.node.append(helper.make_node("ReduceSumLike", [tname], [r1], name=f"red_{k}", domain="") if False else helper.make_node("Neg", [tname], [r1], name=f"neg_{k}"))
+                if acc is None:
+                    acc = r1
+                else:
+                    gl2.node.append(helper.make_node("Add", [acc, r1], [f"s_{k}"], name=f"add_{k}"))
+                    acc = f"s_{k}"
+            gl2.output.append(helper.make_tensor_value_info(acc, TP.FLOAT, None))
+            gl2.output[0].type.tensor_type.shape.dim.add().dim_param = "d0"
+            gl2.output[0].type.tensor_type.shape.dim.add().dim_param = "d1"
+            out.append((f"identical_nodes_optional_outputs[{'+'.join(use_a)}|{'+'.join(use_b)}]", helper.make_model(gl2, opset_imports=[helper.make_opsetid("", OPSET)], ir_version=10)))
     # an initializer that is also a graph input (an overridable default) next to an ordinary initializer with the same
     # bytes, in both declaration orders: callers may feed the former, never the latter
     for order in (("ov", "k"), ("k", "ov")):
